@@ -26,6 +26,10 @@ VARIANTS = {
                  ld=["-fsanitize=thread"]),
     "msan": dict(cc="clang", cflags=["-O1", "-g", "-fno-omit-frame-pointer", "-fsanitize=memory", "-fsanitize-memory-track-origins=1", "-fsanitize-recover=memory"],
                  ld=["-fsanitize=memory"]),
+    # fault-injection variant: ONLY the library's own allocation requests go through the harness seam xv_* (macro redefinition on the compiler command line, no
+    # source change); the harness can make the k-th request of a call fail.  Used by C18 for the bad_alloc path of the C++ wrappers.
+    "fa": dict(cc="gcc", cflags=["-O1", "-g", "-fno-omit-frame-pointer"], ld=[],
+               libflags=["-Dmalloc=xv_malloc", "-Dcalloc=xv_calloc", "-Drealloc=xv_realloc", "-Dstrdup=xv_strdup", "-Dstrndup=xv_strndup"]),
     # compile with the TSan instrumentation pass only; linked against harness/accrt.c
     "acc": dict(cc="clang", cflags=["-O1", "-g", "-fno-omit-frame-pointer", "-fsanitize=thread"], ld=[]),
 }
@@ -201,7 +205,7 @@ class Build:
                 o = os.path.join(odir, s.replace(".c", ".o"))
                 objs.append(o)
                 if not os.path.exists(o):
-                    jobs.append([V["cc"]] + V["cflags"] + self.defs + self.inc + ["-c", os.path.join(REPO, "src", s), "-o", o])
+                    jobs.append([V["cc"]] + V["cflags"] + V.get("libflags", []) + self.defs + self.inc + ["-c", os.path.join(REPO, "src", s), "-o", o])
             tab = os.path.join(odir, "xrayglob_inline_%s.o" % cfg)
             objs.append(tab)
             if not os.path.exists(tab):
